@@ -21,6 +21,8 @@ func (h *Handshake) Send(conn net.Conn) error {
 	if err := conn.SetWriteDeadline(time.Now().Add(time.Second * 10)); err != nil {
 		return err
 	}
+	// 该超时为绝对时间点，仅用于约束握手本身，握手数据写出后即清除，否则会遗留到连接的整个生命周期（建立 10 秒后的正常写入会无故超时）
+	defer func() { _ = conn.SetWriteDeadline(time.Time{}) }()
 
 	_, err := conn.Write(data)
 	return err
@@ -31,6 +33,8 @@ func (h *Handshake) Wait(conn net.Conn) error {
 	if err := conn.SetReadDeadline(time.Now().Add(time.Second * 10)); err != nil {
 		return err
 	}
+	// 同上：握手数据读到后即清除读超时，避免空闲连接在建立 10 秒后被读循环误判为读取失败
+	defer func() { _ = conn.SetReadDeadline(time.Time{}) }()
 
 	if _, err := conn.Read(buf); err != nil {
 		return err
